@@ -197,6 +197,21 @@ KEYS = {
 }
 
 
+# Named ordering predicates  pred(a, b, w, kind) on bit patterns a, b of width w of a port of kind u | s:
+# "the first argument comes before (is preferred to) the second".  The cohdl text of each lives in
+# verif/gen/c18_cases.py (CMP_TEXT); both are written from the same one-line description.
+CMPS = {
+    "lt": lambda a, b, w, k: interp(a, w, k) < interp(b, w, k),      # natural ascending
+    "gt": lambda a, b, w, k: interp(a, w, k) > interp(b, w, k),      # natural descending
+    "slt": lambda a, b, w, k: signed(a, w) < signed(b, w),           # two's complement reading, ascending
+    "sgt": lambda a, b, w, k: signed(a, w) > signed(b, w),           # two's complement reading, descending
+    "ult": lambda a, b, w, k: a < b,                                 # unsigned reading, ascending
+    "ugt": lambda a, b, w, k: a > b,                                 # unsigned reading, descending
+    "shr1lt": lambda a, b, w, k: (a >> 1) < (b >> 1),                # floor(x/2) ascending: neighbours tie
+    "shr1gt": lambda a, b, w, k: (a >> 1) > (b >> 1),
+}
+
+
 def _first_extremum(vals, better):
     """index of the first element e such that no other element is `better` than it ... computed the
     boring way: scan left to right, replace the champion only by a strictly better element"""
@@ -213,7 +228,15 @@ def r_extremum(p, v):
     xs = _elems(p, v)
     key = KEYS[p.get("key", "id")]
     ks = [key(x) for x in xs]
-    if p["what"] == "min":
+    if p.get("cmp"):
+        # explicit cmp argument: cmp(a, b) == "a is preferred to b" (for minimum: smaller, for maximum:
+        # larger); the result is the first element to which no other element is preferred
+        assert p.get("key", "id") == "id"
+        pred = CMPS[p["cmp"]]
+        pats = [v["x%d" % i] for i in range(p["n"])]
+        idx = _first_extremum(pats, lambda a, b: pred(a, b, p["w"], p.get("kind", "u")))
+        assert not any(pred(x, pats[idx], p["w"], p.get("kind", "u")) for x in pats)
+    elif p["what"] == "min":
         idx = _first_extremum(ks, lambda a, b: a < b)
         assert ks[idx] == min(ks) and idx == ks.index(min(ks))
     else:
@@ -287,26 +310,40 @@ def r_count_elements(p, v):
         return (n,)
 
 
-def r_clamp(p, v):
+def _clamp_operands(p, v):
+    """bit patterns (width w) of val, low, high; bounds are ports (possibly narrower, p['bw']) or ints"""
     w, kind = p["w"], p["kind"]
-    x = interp(v["val"], w, kind)
-    lo = interp(v["low"], w, kind) if "low" in v else p["low"]
-    hi = interp(v["high"], w, kind) if "high" in v else p["high"]
-    if x < lo:
+    m = (1 << w) - 1
+    bw = p.get("bw", w)
+
+    def bound(name):
+        if name in v:
+            # a narrower bound port is converted to the type of val: value preserving
+            return interp(v[name], bw, p.get("bkind", kind)) & m
+        return p[name] & m
+    return v["val"], bound("low"), bound("high")
+
+
+def r_clamp(p, v):
+    """low if val is less than low, high if val is greater than high (= high is less than val), else val,
+    "less" being the cmp argument (default: natural order of the type of val)"""
+    w, kind = p["w"], p["kind"]
+    x, lo, hi = _clamp_operands(p, v)
+    less = CMPS[p.get("cmp", "lt")]
+    if less(x, lo, w, kind):
         r = lo
-    elif x > hi:
+    elif less(hi, x, w, kind):
         r = hi
     else:
         r = x
-    return (r & ((1 << w) - 1),)
+    return (r,)
 
 
 def v_clamp(p, v):
-    # the documentation speaks of "the range [low, high]": an empty range is left out
+    # the documentation speaks of "the range [low, high]": an empty range (high less than low) is left out
     w, kind = p["w"], p["kind"]
-    lo = interp(v["low"], w, kind) if "low" in v else p["low"]
-    hi = interp(v["high"], w, kind) if "high" in v else p["high"]
-    return lo <= hi
+    x, lo, hi = _clamp_operands(p, v)
+    return not CMPS[p.get("cmp", "lt")](hi, lo, w, kind)
 
 
 # ---------------------------------------------------------------------------------------------
